@@ -1,11 +1,15 @@
-/- Driver for C13 (stub — not built yet) -/
-import Driver.Common
+/-
+Driver for C13: same script language, kernel model (`Net.run`) and checks as Driver/C09.lean; in
+addition the trace and the result of the SECOND simulation run in the same process (`obs2`,
+`res2`, `glob2`) are compared with the model (the simulator's globals survived the panics).
+-/
+import Driver.C09
 namespace Driver.C13
 open Driver
 
 def main (stdin : IO.FS.Stream) : IO Unit := do
   let cases ← readCases stdin
   for c in cases do
-    IO.println s!"fail {(words c.header)[1]?.getD "?"} op=0 kind=unimplemented"
+    IO.println (Driver.C09.runCase true c)
 
 end Driver.C13
